@@ -132,6 +132,18 @@ pub fn cb(point: &'static str) {
     }
 }
 
+/// Function index whose next body execution panics (one-shot; history op `arm`).
+pub static ARM_FN: std::sync::atomic::AtomicI64 = std::sync::atomic::AtomicI64::new(0);
+
+/// Body entry of program function `j`: panics if `j` is armed.
+pub fn cb_body(j: i64) {
+    if j > 0 && ARM_FN.load(Ordering::SeqCst) == j {
+        ARM_FN.store(0, Ordering::SeqCst);
+        emit(serde_json::json!({"t": tid(), "e": "inject", "k": -1, "at": "body-armed"}));
+        std::panic::panic_any(INJECTED);
+    }
+}
+
 pub fn next_serial() -> u64 {
     SERIAL.fetch_add(1, Ordering::Relaxed)
 }
